@@ -324,6 +324,8 @@ static void episode_chaos(int len)
         int c = prng_below(100), conn = prng_below(8) == 0;
         int ca = prng_below(12) ? fca : fca + 1, ioa = prng_below(12) ? fioa : fioa + 1, nof = prng_below(12) ? fnof : fnof + 1;
         if (prng_below(60) == 0) { now_ms += 3001 + prng_below(3000); n_timeout++; } else tick();
+        if (prng_below(25) == 0) {   /* the application changes its mind about accepting uploads */
+            acceptUp = !acceptUp; readyErr = prng_below(4); fprintf(ops, "fs.accept %d %d\n", acceptUp, readyErr); fflush(ops); n_ops++; static char sm[400]; summary(sm); fprintf(impl, "ok%s\n", sm); }
         int st = srv->state, sec = srv->currentSectionNumber;
         if (c < 22) { run_task(conn); continue; }
         if (c < 55) {            /* the message a cooperative master would send now */
